@@ -10,6 +10,7 @@ import (
 	"bufio"
 	"bytes"
 	"fmt"
+	"os"
 	"strings"
 
 	"verif/harness/internal/report"
@@ -136,6 +137,14 @@ func runC04(c *Ctx) error {
 		err = err2
 	}
 	c34SchemaProbe(c, e)
+	// the file the command line leaves at the target is the package and nothing else, also when something was there before
+	famC := c.Rep.Family("cli-existing-target", "the built nfpm binary, `nfpm package` x 5 formats x {-t file, -t directory (conventional name)} onto a target where a larger file already exists vs the same build into a fresh directory (mtime fixed): the bytes left at the target must be exactly the freshly built package - a well-formed container with nothing after it; non-trivial = always")
+	famC.Exhaustive = true
+	if bin, berr := BuildNfpmBinary(c.Repo, c.Tmp); berr != nil {
+		c.Rep.Note("cli-existing-target: cannot build the nfpm binary: %v", berr)
+	} else if root, merr := os.MkdirTemp(c.Tmp, "cli-existing-"); merr == nil {
+		CliExistingTargetCases(c, famC, bin, "C04", root)
+	}
 	return err
 }
 
